@@ -132,3 +132,43 @@ fn n17_lists_all_policies() {
     }
     eprintln!("EVALUATIONS: {}", n);
 }
+
+// C13 bounded stand-in for chain equality (the symbolic obligation C13/chain/equality exceeds CBMC's
+// memory with the 64-cell comparison unwound: thorough): a family of chains built from the six games,
+// their prefixes, all stored outcomes, and start positions that differ only in the half-move clock
+// or the move number (a pawn move then leads to the SAME live board from DIFFERENT starts).  For
+// every pair: == holds exactly when start position, move list and outcome are equal.
+#[cfg(not(kani))]
+#[test]
+fn n13_chain_equality_family() {
+    let mut fam: Vec<(RawBoard, Vec<Move>, Option<Outcome>, BaseMoveChain<NoRepeat>)> = Vec::new();
+    let mut starts: Vec<(String, &str)> = GAMES.iter().map(|(s, l)| (s.to_string(), *l)).collect();
+    starts.push(("rnbqkbnr/pppppppp/8/8/8/8/PPPPPPPP/RNBQKBNR w KQkq - 7 1".to_string(), "e2e4 e7e5 g1f3 b8c6 f1b5 a7a6"));
+    starts.push(("rnbqkbnr/pppppppp/8/8/8/8/PPPPPPPP/RNBQKBNR w KQkq - 0 9".to_string(), "e2e4 e7e5 g1f3 b8c6 f1b5 a7a6"));
+    starts.push(("4k3/8/8/8/1p6/8/P7/4K3 w - - 33 40".to_string(), "a2a4 b4a3 e1d1 a3a2 d1c2 a2a1q"));
+    for (start, line) in &starts {
+        let (s, moves, _before, _chain) = build(start, line);
+        for k in 0..=moves.len() {
+            for (oi, outcome) in outcomes().into_iter().enumerate() {
+                if oi >= 3 && k % 2 == 1 { continue; }
+                let mut c = BaseMoveChain::<NoRepeat>::new(s.clone());
+                for m in &moves[..k] { c.push(*m).unwrap(); }
+                c.reset_outcome(outcome);
+                fam.push((*s.raw(), moves[..k].to_vec(), outcome, c));
+            }
+        }
+    }
+    let mut n = 0u64;
+    let mut same_live_different_start = 0u64;
+    for a in &fam { for b in &fam {
+        let want = a.0 == b.0 && a.1 == b.1 && a.2 == b.2;
+        if a.3.last() == b.3.last() && a.0 != b.0 { same_live_different_start += 1; }
+        if (a.3 == b.3) != want {
+            eprintln!("REPLAY-INPUT: chains (start {:?}, {} moves, outcome {:?}) and (start {:?}, {} moves, outcome {:?}): == is {}, expected {}", a.0.to_string(), a.1.len(), a.2, b.0.to_string(), b.1.len(), b.2, a.3 == b.3, want);
+            panic!("chain equality");
+        }
+        n += 1;
+    } }
+    assert!(same_live_different_start > 0);
+    eprintln!("EVALUATIONS: {}", n);
+}
